@@ -35,8 +35,11 @@ let failat_of toks =
       then Some (nat_of_int (int_of_string (Stdlib.String.sub t 2 (Stdlib.String.length t - 2)))) else go r in
   go toks
 
-let rec take k l acc = if k = 0 then (Stdlib.List.rev acc, l) else
-    match l with x :: t -> take (k-1) t (x :: acc) | [] -> failwith "short block"
+(* up to k following lines that start with pref (a shrunk case may have lost lines of a block) *)
+let rec take pref k l acc = if k = 0 then (Stdlib.List.rev acc, l) else
+    match l with
+    | ((p :: _) as x) :: t when p = pref -> take pref (k-1) t (x :: acc)
+    | _ -> (Stdlib.List.rev acc, l)
 
 let went_of l = match l with
   | ["o"; o; k; v] -> { w_op = n_of_int (op_of o); w_seq = N0; w_key = bytes_of_token k; w_val = bytes_of_token v }
@@ -59,9 +62,10 @@ let run (id : string) (hdr : string list) (lines : string list list) (out : stri
       let (w', _) = wal_append !w (n_of_int 2) (bytes_of_token k) [] in
       w := w'; build r
     | ("w" :: "batch" :: [n]) :: r ->
-      let (ops, rest) = take (int_of_string n) r [] in
+      let (ops, rest) = take "o" (int_of_string n) r [] in
       let (w', _) = wal_append_batch !w (Stdlib.List.map went_of ops) in
       w := w'; build rest
+    | ("o" :: _) :: r -> build r
     | rest -> rest in
   let evs = build lines in
   let log = entries_from (n_of_int 1) !w.wl_files in
@@ -93,11 +97,12 @@ let run (id : string) (hdr : string list) (lines : string list list) (out : stri
     | ("poll" :: from :: opts) :: r ->
       deliver (poll log (n_of_string from)) (failat_of opts); go r
     | ("raw" :: n :: opts) :: r ->
-      let (es, rest) = take (int_of_string n) r [] in
+      let (es, rest) = take "e" (int_of_string n) r [] in
       let es = Stdlib.List.map (fun l -> match l with
           | ["e"; s; p] -> { p_seq = n_of_string s; p_payload = bytes_of_token p }
           | _ -> failwith "bad raw entry") es in
       deliver es (failat_of opts); go rest
+    | (("o" | "e") :: _) :: r -> go r
     | ["reset"] :: r ->
       pr ("X reset " ^ n_to_string (stream_start !rep)); go r
     | ["restart"] :: r ->
